@@ -32,6 +32,18 @@ thread_local! {
     static DEPTH: Cell<u32> = const { Cell::new(0) };
 }
 
+thread_local! {
+    static SERIAL: Cell<i64> = const { Cell::new(0) };
+}
+
+/// Next record serial number (per thread).
+pub fn next_serial() -> i64 {
+    SERIAL.with(|c| {
+        c.set(c.get() + 1);
+        c.get()
+    })
+}
+
 /// Start recording on this thread (clears previous events).
 pub fn start() {
     SINK.with(|s| *s.borrow_mut() = Some(Vec::new()));
